@@ -229,8 +229,13 @@ let print_views (out : Buffer.t) ek m (st : state) (s : (bytes, 'u) sys) (prev :
         let upds = if upd = [] then "-" else
           String.concat "," (List.map (fun (i, v) -> dec_of_n i ^ ":" ^ pv v) upd) in
         let mx = match umax_index m h.hupd with Some x -> dec_of_n x | None -> "none" in
+        let big = Z.gt (z_of_n h.hblen) (Z.of_int 4096) in
         Buffer.add_string out (Printf.sprintf "S h%d blen=%s depth=%d tree=%s upd=%s max=%s\n"
-          k (dec_of_n h.hblen) (int_of_nat h.hdepth) (tree_string h.htree) upds mx);
+          k (dec_of_n h.hblen) (int_of_nat h.hdepth) (if big then "big" else tree_string h.htree) upds mx);
+        if big then begin
+          Buffer.add_string out (Printf.sprintf "M h%d big\n" k);
+          Buffer.add_string out (Printf.sprintf "I h%d big\n" k)
+        end else
         let memos = ref [] and idents = ref [] in
         preorder h.htree (fun t ->
           let i = id_int (idof t) in
